@@ -209,7 +209,6 @@ func TestC13_Grid(t *testing.T) {
 		}
 	}
 	if only < 0 {
-		rec.Exhaustive()
-		rec.Set("grid_cases", idx)
+		rec.Set("grid_cases", idx) // a designed factor list, not an exhaustive sub-space
 	}
 }
